@@ -317,6 +317,42 @@ def _run():
     _need(arm is not None and re.search(r"if\s+sink\.send_error\(Id::Null,\s*reject_too_big_request\([^)]*\)\)\.await\.is_err\(\)\s*\{\s*break", arm)
           and re.search(r"\}\s*continue\s*;", arm), "background_task: too-large arm is no longer `send_error(..) else break; continue`")
 
+    # ---- background_task: is the buffer handed to soketto's receive() allocated inside the unfold closure (per call)?
+    ufs = list(re.finditer(r"stream::unfold\s*\(", bg))
+    _need(len(ufs) == 1, "background_task: expected one stream::unfold(seed, closure), found %d" % len(ufs))
+    uf_pos, i = ufs[0].start(), ufs[0].end()
+    depth, j, comma = 1, i, None
+    while j < len(bg) and depth:
+        if bg[j] in "([{":
+            depth += 1
+        elif bg[j] in ")]}":
+            depth -= 1
+        elif bg[j] == "," and depth == 1 and comma is None:
+            comma = j
+        j += 1
+    _need(depth == 0 and comma is not None, "background_task: stream::unfold(seed, closure): arguments not found")
+    closure = bg[comma + 1:j - 1]
+    m = re.match(r"\s*(?:move\s+)?\|(.*?)\|\s*async\s*(?:move\s*)?\{", closure, re.S)
+    _need(m, "background_task: the unfold closure is not `|state| async { .. }`")
+    cl_params, cl_body = m.group(1), closure[m.end():]
+    rc = list(re.finditer(r"\.receive(?:_data)?\s*\(\s*&mut\s+(\w+)\s*\)", bg))
+    _need(len(rc) == 1, "background_task: expected exactly one `.receive(&mut <buffer>)`, found %d" % len(rc))
+    rbuf = rc[0].group(1)
+    rin = list(re.finditer(r"\.receive(?:_data)?\s*\(\s*&mut\s+%s\s*\)" % re.escape(rbuf), cl_body))
+    _need(len(rin) == 1, "background_task: soketto's receive() is not called inside the unfold closure")
+    before = cl_body[:rin[0].start()]
+    lets = list(re.finditer(r"let\s+(?:mut\s+)?%s\s*(?::[^=;]+)?=\s*([^;]+);" % re.escape(rbuf), before))
+    if lets:
+        init = lets[-1].group(1).strip()
+        _need(re.fullmatch(r"Vec(?:::<[^>]*>)?::new\(\)|Vec(?:::<[^>]*>)?::with_capacity\([^()]*\)|vec!\[\]", init),
+              "background_task: receive buffer `%s` is initialised with %r inside the closure (not a new empty Vec)" % (rbuf, init))
+        _need(not re.search(r"\b%s\b" % re.escape(rbuf), cl_params), "background_task: receive buffer `%s` is both closure state and a local" % rbuf)
+        ws_buffer_fresh, ws_buffer_src = True, "let mut %s = %s; inside the unfold closure, per receive() call" % (rbuf, init)
+    else:
+        _need(re.search(r"\b%s\b" % re.escape(rbuf), cl_params) or re.search(r"let\s+(?:mut\s+)?%s\b" % re.escape(rbuf), bg[:uf_pos]),
+              "background_task: cannot find where the receive buffer `%s` is bound" % rbuf)
+        ws_buffer_fresh, ws_buffer_src = False, "`%s` is not allocated inside the unfold closure: it lives across receive() calls" % rbuf
+
     # ---- http::call_with_service_builder
     cwb = fb(http, r"pub async fn call_with_service_builder<L, B>\(")
     _need(cwb is not None, "http::call_with_service_builder not found")
@@ -395,6 +431,8 @@ def _run():
     w("Definition connect_sink_limit (c : cfg) : N := %s." % _coq(connect_sink))
     w("(* transport/ws.rs background_task: limit quoted in the -32007 error *)")
     w("Definition ws_reported_limit (c : cfg) : N := %s.   (* reject_too_big_request(%s) *)" % (_coq(ws_reported), rj[0][1][0]))
+    w("(* transport/ws.rs background_task: the Vec handed to soketto's receive() -- a new one per call? *)")
+    w("Definition ws_recv_buffer_fresh : bool := %s.   (* %s *)" % ("true" if ws_buffer_fresh else "false", ws_buffer_src))
     w("(* transport/http.rs *)")
     pname = cws_read[1] if cws_read[0] == "param" else "unused"
     w("Definition call_with_service_read_limit (%s : N) : N := %s.   (* read_body(.., .., %s) *)" % (pname, _coq(cws_read), rbc[0][1][2]))
